@@ -43,7 +43,7 @@ def check(run):
         return parts if len(parts) > 1 else [1, m - 1]
     max_iters = (1, 2, 3, 5, 8, 13, 30) if thorough else (1, 2, 3, 4, 6)
     tols = ('0', '1e-12', '1e-8', '1e-4', '1e-2', '1e-1', 'stop:1', 'stop:2', 'stop:3', 'stop:5') if thorough else ('0', '1e-12', '1e-4', '1e-1', 'stop:1', 'stop:2', 'stop:3')
-    behaviours = scenario.generate(run, TEMPLATES, run.seed, 600 if thorough else 90, 16, max_iters=max_iters, tols=tols, workers=8)
+    behaviours = scenario.generate(run, TEMPLATES + (['se2huge'] if thorough else []), run.seed, 600 if thorough else 90, 16, max_iters=max_iters, tols=tols, workers=8)
     # hand-written behaviours guarantee every class of the vacuity guard whatever the seed: early stops, runs ending at max_iter,
     # diverging steps, split comparisons
     def opt(m, tol, vb=False, ff=True):
